@@ -68,6 +68,11 @@ PARAM_TEMPLATES = [
     ('SELECT verif_fault(a, 0) AS f, {0} - a AS x FROM #t0', ['int'], ('fault',)),
     ('SELECT a, a * {0} AS y FROM #t1 WHERE a != {1}', ['int', 'int'], ('late',)),
     ('SELECT {0} AS p, {0} AS q, a - {1} AS r, {1} - a AS s FROM #t0', ['int', 'int'], ('repeat',)),
+    # the same pattern text in case-insensitive (~, !~) and case-sensitive (grep, grepn, subst) constructs
+    ('SELECT account, grep({0}, account) AS g, subst({0}, "X", account) AS s WHERE number > 0', ['lpat'], ('regex',)),
+    ('SELECT account, number WHERE account ~ {0} AND narration !~ {1}', ['lpat', 'lpat'], ('regex',)),
+    ('SELECT narration, grepn({0}, narration, 0) AS g, payee WHERE payee ~ {1} OR narration ~ {0}', ['lpat', 'lpat'], ('regex',)),
+    ('SELECT account, has_account(account) AS h, findfirst({0}, tags) AS t WHERE account ~ {0}', ['lpat'], ('regex',)),
     ('SELECT {0} AS v, b + {1} AS w FROM #t0 LIMIT 3', ['dec', 'dec'], ('typed',)),
     ('SELECT {0} AS v, a FROM #t0 WHERE a < {1}', ['int', 'int'], ('typed',)),
     ('SELECT {0} AS flag, a FROM #t0 WHERE e OR {1}', ['bool', 'bool'], ('typed',)),
@@ -151,6 +156,8 @@ def gen_slot(rng, t):
         return rng.sample(['a', 'b', 'abc', 'zz', 'x y', 'USD'], rng.randint(1, 3))
     if t == 'null':
         return None
+    if t == 'lpat':
+        return rng.choice(['bank', 'assets', 'food', 'cash', 'rent', 'lunch', 'cafe', 'trip', 'b', 'Bank'])
     if t == 'metakey':
         return rng.choice(['lineno', 'nosuchkey', 'filename'])
     if t == 'nbool':
@@ -177,7 +184,7 @@ def twin(rng, v):
 
 
 def base_type(t):
-    return {'pint': 'int', 'acct': 'str', 'year': 'int', 'month': 'int', 'pday': 'int', 'nbool': 'bool', 'metakey': 'str'}.get(t, t)
+    return {'pint': 'int', 'acct': 'str', 'year': 'int', 'month': 'int', 'pday': 'int', 'nbool': 'bool', 'metakey': 'str', 'lpat': 'str'}.get(t, t)
 
 
 def render(template, mode, vals, names=None):
